@@ -134,7 +134,7 @@ def cnum(name, ints, nums, mats, x, exact, obs):
                                           cbool(exact), cfl(obs))
 
 
-def check_values(run, what, case, got, want, signature=None):
+def check_values(run, what, case, got, want, signature=None, rtol=1e-9):
     """got: implementation output (sequence), want: oracle output"""
     got = list(got)
     if len(got) != len(want):
@@ -142,7 +142,7 @@ def check_values(run, what, case, got, want, signature=None):
                              signature=signature, observed=got)
         return False
     for i, (a, b) in enumerate(zip(got, want)):
-        if not O.close(float(a), float(b)):
+        if not O.close(float(a), float(b), rtol):
             run.oracle_violation("%s: objective %d is %r, published formula gives %r" % (what, i, a, b), case,
                                  signature=signature, observed=got)
             return False
@@ -168,7 +168,9 @@ def gen_single(run, C, B):
             pts = [samp(rng, n) for _ in range(reps)]
             pts.append([0.0] * n)
             pts.append([rng.choice([-1.0, 1.0, 0.5]) for _ in range(n)])
-            for x in pts:
+            for ip, x in enumerate(pts):
+                # the two special points involve no cancellation: constants are compared to 1e-12
+                tight = 1e-12 if ip >= reps else 1e-9
                 st, r = call(f, list(x))
                 case = {"kind": "single", "f": name, "x": x, "observed": repr(r)}
                 if st != "ok":
@@ -177,7 +179,7 @@ def gen_single(run, C, B):
                 if not isinstance(r, tuple) or len(r) != 1:
                     run.oracle_violation("%s does not return one entry per objective" % name, case, observed=repr(r))
                     continue
-                check_values(run, name, case, r, ofn(x))
+                check_values(run, name, case, r, ofn(x), rtol=tight)
                 C.add(cnum(name, [], [], [], x, ex, as_list(r)), case)
             # tabulated optimum
             for loc, val, tol in optima:
